@@ -259,6 +259,147 @@ fn fe_literal(cache: &mut Option<(u64, Option<TypedProgram>)>, payload: &str) ->
     }
 }
 
+/// Kind 'S' (used by C05): the whole pipeline on one program text, then - for every public function
+/// the compiler accepts - validate(), the shape of the declared types, the register conversion and
+/// its validate(), one evaluation on all-zero inputs and the decoding of the output by the declared
+/// return type. Runs here, in a worker process, because programs the harness did not generate may
+/// describe absurd sizes (an allocation failure aborts the process).
+fn fe_shape(src: &str) -> String {
+    use garble_lang::circuit_type::CircuitType;
+    mark(b't');
+    let typed = match catch(|| garble_lang::check(src)) {
+        Err(p) => return format!("P check {}", one_line(&p)),
+        Ok(Err(_)) => return "E check 1".into(),
+        Ok(Ok(t)) => t,
+    };
+    FRONT_US.with(|f| f.set(1));
+    let unspecified = catch(|| {
+        let dbg = format!("{typed:?}");
+        dbg.contains("Unsigned(Unspecified)") || dbg.contains("Signed(Unspecified)")
+    })
+    .unwrap_or(false);
+    // a failure of a program with one of the two known root causes (KF-C05-1: a number literal whose
+    // type the checker left unspecified; KF-C07-3: join call on two empty arrays) is attributed to it
+    let verdict = fe_shape_judge(&typed);
+    if verdict.starts_with('P') || verdict.starts_with('B') {
+        if unspecified && has_suffix_free_number(src) {
+            return "O known-cause:unspecified-literal-type-left-by-check".into();
+        }
+        if catch(|| has_join_of_two_empty_arrays(&typed)).unwrap_or(false) {
+            return "O known-cause:join-call-on-two-empty-arrays".into();
+        }
+    }
+    verdict
+}
+
+fn fe_shape_judge(typed: &TypedProgram) -> String {
+    use garble_lang::circuit_type::CircuitType;
+    let mut names: Vec<&String> = typed.fn_defs.iter().filter(|(_, f)| f.is_pub).map(|(n, _)| n).collect();
+    names.sort();
+    let mut judged = 0;
+    let mut with_shape = 0;
+    for name in names {
+        mark(b'c');
+        let (circ, fdef, const_sizes) = match catch(|| typed.compile_with_constants(name, HashMap::new(), &garble_lang::CompileOptions::default()).map(|(c, f, s)| (c, f.clone(), s))) {
+            Err(p) => return format!("P compile fn {name}: {}", one_line(&p)),
+            Ok(Err(_)) => continue,
+            Ok(Ok(x)) => x,
+        };
+        judged += 1;
+        if let Err(e) = circ.validate() {
+            return format!("B shape fn {name}: the compiled circuit fails validate(): {e:?}");
+        }
+        if let Some((parties, ret_bits)) = super::c05_shapes::declared_shape(&typed, name) {
+            with_shape += 1;
+            if circ.input_gates != parties {
+                return format!("B shape fn {name}: party sizes {:?}, the declared parameter types need {:?}", circ.input_gates, parties);
+            }
+            if circ.output_gates.len() != crate::gl::PANIC_BITS + ret_bits {
+                return format!("B shape fn {name}: {} output bits, the declared return type needs 161 + {ret_bits}", circ.output_gates.len());
+            }
+        }
+        match catch(|| garble_lang::register_circuit::Circuit::from(&circ)) {
+            Err(p) => return format!("P register-conversion fn {name}: {}", one_line(&p)),
+            Ok(r) => {
+                if let Err(e) = r.validate() {
+                    return format!("B shape fn {name}: the register circuit fails validate(): {e:?}");
+                }
+            }
+        }
+        let inputs: Vec<Vec<bool>> = circ.input_gates.iter().map(|n| vec![false; *n]).collect();
+        let n_out = circ.output_gates.len();
+        let gp = garble_lang::GarbleProgram { program: typed.clone(), main: fdef, circuit: CircuitType::Ssa(circ), consts: HashMap::new(), const_sizes };
+        match catch(|| {
+            let out = gp.circuit.eval(&inputs);
+            (out.len(), gp.parse_output(&out).map(|_| ()))
+        }) {
+            Err(p) => return format!("P eval-and-decode fn {name}: {}", one_line(&p)),
+            Ok((n, r)) => {
+                if n != n_out {
+                    return format!("B shape fn {name}: eval returned {n} bits for {n_out} outputs");
+                }
+                match r {
+                    Ok(()) | Err(garble_lang::eval::EvalError::Panic(_)) => {}
+                    Err(e) => return format!("B shape fn {name}: the output does not decode to a value of the declared return type: {}", one_line(&format!("{e:?}"))),
+                }
+            }
+        }
+    }
+    format!("O judged:{judged}:{with_shape}")
+}
+
+/// What the shape worker said about one program (interface for C05).
+pub enum ShapeVerdict {
+    /// rejected by the type checker (or every public function rejected by the compiler)
+    Rejected,
+    /// accepted; (public functions judged, of these with a shape computed from the declared types)
+    Held(usize, usize),
+    /// a known root cause recognised by the worker (KF-C05-1 / KF-C07-3 family)
+    KnownCause(String),
+    /// accepted, and the compiler / converter / evaluator panicked (stage, message)
+    Panicked(String, String),
+    /// accepted, and the product is wrong
+    Bad(String),
+    /// time-out, memory exhaustion, crash of the checker: not judged here (C07 judges totality)
+    NotJudged(String),
+}
+
+/// A worker process that judges programs with kind 'S'.
+pub struct ShapeRunner {
+    mgr: Manager,
+}
+
+impl ShapeRunner {
+    pub fn new() -> Self {
+        ShapeRunner { mgr: Manager::new(10) }
+    }
+    pub fn run(&mut self, class: &'static str, programs: &[String]) -> Vec<ShapeVerdict> {
+        let inputs: Vec<Input> = programs.iter().map(|p| Input { class, origin: String::new(), kind: 'S', compile: true, text: p.clone() }).collect();
+        self.mgr
+            .run(&inputs)
+            .into_iter()
+            .map(|(_, out)| match out {
+                Out::Errors(..) => ShapeVerdict::Rejected,
+                Out::Ok(w) if w.starts_with("known-cause:") => ShapeVerdict::KnownCause(w["known-cause:".len()..].to_string()),
+                Out::Ok(w) => {
+                    let mut it = w.split(':').skip(1).map(|x| x.parse::<usize>().unwrap_or(0));
+                    match (it.next().unwrap_or(0), it.next().unwrap_or(0)) {
+                        (0, _) => ShapeVerdict::Rejected,
+                        (j, s) => ShapeVerdict::Held(j, s),
+                    }
+                }
+                Out::Panic(stage, msg) if stage == "check" => ShapeVerdict::NotJudged(format!("checker panicked: {msg}")),
+                Out::Panic(stage, msg) if msg.contains("capacity overflow") => ShapeVerdict::NotJudged(format!("{stage}: capacity overflow")),
+                Out::Panic(stage, msg) => ShapeVerdict::Panicked(stage, msg),
+                Out::Bad(_, what) => ShapeVerdict::Bad(what),
+                Out::Harness(w) => ShapeVerdict::NotJudged(format!("harness: {w}")),
+                Out::Timeout(stage) => ShapeVerdict::NotJudged(format!("time-out in stage {stage}")),
+                Out::Died(stage, how) => ShapeVerdict::NotJudged(format!("worker died in stage {stage}: {how}")),
+            })
+            .collect()
+    }
+}
+
 fn worker_loop() {
     let stdin = std::io::stdin();
     let mut inp = stdin.lock();
@@ -286,6 +427,7 @@ fn worker_loop() {
         let ans = match kind {
             "P" => fe_program(&text, flag == "1"),
             "L" => fe_literal(&mut cache, &text),
+            "S" => fe_shape(&text),
             _ => "H unknown-kind".to_string(),
         };
         let us = t0.elapsed().as_micros();
